@@ -310,6 +310,7 @@ fn compare(
     first: &First,
     loc: &Path,
     doc: &Doc,
+    tag_keys: &[String],
 ) -> Result<(), String> {
     let path = match parsed {
         Parsed::ValueType { path, .. }
@@ -423,7 +424,7 @@ fn compare(
             }
             // what the library's own free text says about the value must be true of the value the
             // printed path leads to
-            if let Some(why) = crate::rules::unexpected_claims(msg, here) {
+            if let Some(why) = crate::rules::unexpected_claims(msg, here, &|k| tag_keys.iter().any(|t| t == k)) {
                 return Err(format!("at {}: {why}", path_str(path)));
             }
             Ok(())
@@ -469,6 +470,17 @@ pub fn check_source(c: &mut Checker, base: &Run, source: crate::runner::Source) 
         return;
     }
     let doc = c.scn.doc.clone();
+    // programs in which a variant field is keyed like its enum's tag: that key is taken out of the
+    // object before the fields are read, so "the payload has a member of that name" refutes nothing
+    // about a field reported missing (false alarm met in the thorough tier, DESIGN section 11)
+    let tag_keys: Vec<String> = if c.env.feats[c.scn.program].tag_clash {
+        c.env.cat.types.iter().filter_map(|t| match &t.kind {
+            simcore::desc::TypeKind::Tagged { tag, .. } => Some(tag.clone()),
+            _ => None,
+        }).collect()
+    } else {
+        vec![]
+    };
     for (party, dialect) in [(ErrParty::JsonError, &JSON), (ErrParty::QueryParamError, &QUERY)] {
         if source == crate::runner::Source::Json && party != ErrParty::JsonError {
             continue;
@@ -496,7 +508,7 @@ pub fn check_source(c: &mut Checker, base: &Run, source: crate::runner::Source) 
                 if loc.len() >= 3 {
                     c.stats.bump("parseback_at_depth_ge3", 1);
                 }
-                if let Err(why) = compare(party, &p, &first, &loc, &doc) {
+                if let Err(why) = compare(party, &p, &first, &loc, &doc, &tag_keys) {
                     out.push(Violation { rule: "M-parseback", msg: format!("{party:?} message {m:?}: {why}") });
                 }
             }
